@@ -104,30 +104,59 @@ fn read_exact_timeout(s: &mut TcpStream, n: usize, ms: u64) -> Result<Vec<u8>, V
 #[derive(Default)]
 struct AuthLog {
     calls: u32,
+    /// 0: allow everything; 1: role "operator" may do everything, every other role may only read
+    policy: u8,
+    /// (callback, unit, start or index, count or 0, role as received)
+    records: Vec<(&'static str, u8, u16, u16, String)>,
 }
 
-extern "C" fn auth_range(_u: u8, _r: ffi::AddressRange, _role: *const std::os::raw::c_char, ctx: *mut c_void) -> c_int {
+fn auth_decide(ctx: *mut c_void, name: &'static str, write: bool, unit: u8, a: u16, b: u16, role: *const std::os::raw::c_char) -> c_int {
     let c: &Ctx<AuthLog> = unsafe { ctx_ref(ctx) };
-    c.state.lock().unwrap().calls += 1;
-    0
+    let role = if role.is_null() { "<null>".to_string() } else { unsafe { std::ffi::CStr::from_ptr(role) }.to_string_lossy().into_owned() };
+    let mut g = c.state.lock().unwrap();
+    g.calls += 1;
+    let allow = g.policy == 0 || !write || role == "operator";
+    g.records.push((name, unit, a, b, role));
+    if allow {
+        0
+    } else {
+        1
+    }
 }
 
-extern "C" fn auth_index(_u: u8, _i: u16, _role: *const std::os::raw::c_char, ctx: *mut c_void) -> c_int {
-    let c: &Ctx<AuthLog> = unsafe { ctx_ref(ctx) };
-    c.state.lock().unwrap().calls += 1;
-    0
+macro_rules! auth_range_fn {
+    ($f:ident, $name:expr, $write:expr) => {
+        extern "C" fn $f(u: u8, r: ffi::AddressRange, role: *const std::os::raw::c_char, ctx: *mut c_void) -> c_int {
+            auth_decide(ctx, $name, $write, u, r.start, r.count, role)
+        }
+    };
 }
+macro_rules! auth_index_fn {
+    ($f:ident, $name:expr) => {
+        extern "C" fn $f(u: u8, i: u16, role: *const std::os::raw::c_char, ctx: *mut c_void) -> c_int {
+            auth_decide(ctx, $name, true, u, i, 0, role)
+        }
+    };
+}
+auth_range_fn!(auth_rc, "read_coils", false);
+auth_range_fn!(auth_rdi, "read_discrete_inputs", false);
+auth_range_fn!(auth_rhr, "read_holding_registers", false);
+auth_range_fn!(auth_rir, "read_input_registers", false);
+auth_range_fn!(auth_wmc, "write_multiple_coils", true);
+auth_range_fn!(auth_wmr, "write_multiple_registers", true);
+auth_index_fn!(auth_wsc, "write_single_coil");
+auth_index_fn!(auth_wsr, "write_single_register");
 
 fn auth_handler(log: Arc<Mutex<AuthLog>>) -> ffi::AuthorizationHandler {
     ffi::AuthorizationHandler {
-        read_coils: Some(auth_range),
-        read_discrete_inputs: Some(auth_range),
-        read_holding_registers: Some(auth_range),
-        read_input_registers: Some(auth_range),
-        write_single_coil: Some(auth_index),
-        write_single_register: Some(auth_index),
-        write_multiple_coils: Some(auth_range),
-        write_multiple_registers: Some(auth_range),
+        read_coils: Some(auth_rc),
+        read_discrete_inputs: Some(auth_rdi),
+        read_holding_registers: Some(auth_rhr),
+        read_input_registers: Some(auth_rir),
+        write_single_coil: Some(auth_wsc),
+        write_single_register: Some(auth_wsr),
+        write_multiple_coils: Some(auth_wmc),
+        write_multiple_registers: Some(auth_wmr),
         on_destroy: Some(ctx_destroy::<AuthLog>),
         ctx: ctx_new(log, Arc::new(Mutex::new(0))),
     }
@@ -2512,7 +2541,7 @@ fn c18_tls(rt: &FfiRuntime) -> Stats {
                             st.violation(Violation {
                                 signature: format!("tls-server-config-not-forwarded:min13={min13}:self_signed={self_signed}"),
                                 summary: format!("C ABI {variant:?} server, min version {}, {} mode, peer {peer:?} with a {} certificate: served={served} at TLS {version}, the same-named Rust configuration gives served={expect}", if min13 { "1.3" } else { "1.2" }, if self_signed { "self-signed" } else { "authority" }, if valid { "valid" } else { "wrong" }),
-                                replay: json!({"kind": "c18-enums"}),
+                                replay: json!({"kind": "c18-tls"}),
                             });
                         }
                     }
@@ -2631,7 +2660,7 @@ fn c18_tls(rt: &FfiRuntime) -> Stats {
             st.violation(Violation {
                 signature: format!("tls-client-config-not-forwarded:min13={min13}:self_signed={self_signed}:name={name}:wildcard={wildcard}"),
                 summary: format!("C ABI TLS client (min version {}, {} mode, name {name:?}, allow_server_name_wildcard={wildcard}) against a peer offering {peer:?} with certificate {present}: admitted={admitted} (peer saw a request: {request_seen}, TLS {version}; {detail}), the same-named Rust configuration gives admitted={expect}", if min13 { "1.3" } else { "1.2" }, if self_signed { "self-signed" } else { "authority" }),
-                replay: json!({"kind": "c18-enums"}),
+                replay: json!({"kind": "c18-tls"}),
             });
         }
     }
@@ -2693,6 +2722,144 @@ pub unsafe extern "C" fn ioctl(fd: c_int, request: std::os::raw::c_ulong, arg: *
 }
 
 /// the line settings last requested for the pty's slave by anybody in this process
+/// the authorization callbacks of a C-ABI TLS server: every session's own role, the unit id and the
+/// range / index of every request reach the callback unchanged, and the callback's answer decides
+/// the reply - with several sessions of different roles open at once, in every connection order
+fn c18_authz(rt: &FfiRuntime) -> Stats {
+    let mut st = Stats::default();
+    let certs: [(&str, &str); 3] = [("cli_operator", "operator"), ("cli_viewer", "viewer"), ("cli_oddrole", " Operator")];
+    // (pdu, callback, a, b, is a write)
+    let requests: Vec<(Vec<u8>, &'static str, u16, u16, bool)> = vec![
+        (vec![1, 0, 0, 0, 3], "read_coils", 0, 3, false),
+        (vec![2, 0, 1, 0, 2], "read_discrete_inputs", 1, 2, false),
+        (vec![3, 0, 2, 0, 4], "read_holding_registers", 2, 4, false),
+        (vec![4, 0, 0, 0, 1], "read_input_registers", 0, 1, false),
+        (vec![5, 0, 3, 0xFF, 0], "write_single_coil", 3, 0, true),
+        (vec![6, 0, 4, 0, 77], "write_single_register", 4, 0, true),
+        (vec![15, 0, 1, 0, 3, 1, 5], "write_multiple_coils", 1, 3, true),
+        (vec![16, 0, 5, 0, 2, 4, 0, 1, 0, 2], "write_multiple_registers", 5, 2, true),
+    ];
+    let orders: Vec<Vec<usize>> = vec![vec![0, 1, 2], vec![0, 2, 1], vec![1, 0, 2], vec![1, 2, 0], vec![2, 0, 1], vec![2, 1, 0], vec![1, 1, 0], vec![0, 0, 1]];
+    for unit in [1u8, 7] {
+        for order in &orders {
+            let mut points = ten_registers();
+            points.extend((0..10).map(|i| DbOp::Add(0, i, 0)));
+            points.extend((0..10).map(|i| DbOp::Add(1, i, 1)));
+            points.extend((0..10).map(|i| DbOp::Add(3, i, 300 + i)));
+            let server = (0..8).find_map(|_| {
+                let parts = filter_parts(&FilterSpec::Any);
+                let filt = ffi_filter(&parts).ok()?;
+                ffi_server_with_unit(rt, filt, unit, points.clone()).ok()
+            });
+            let Some((server, addr, log)) = server else {
+                st.violation(Violation { signature: "MACHINERY:c-abi-server".into(), summary: "TLS authz server could not be created through the C ABI".into(), replay: json!({}) });
+                return st;
+            };
+            log.lock().unwrap().policy = 1;
+            let order2 = order.clone();
+            let reqs = requests.clone();
+            let log2 = log.clone();
+            // per step: (session index in `order`, request index, reply bytes or None, records added by this step)
+            let steps: Vec<(usize, usize, Option<Vec<u8>>, Vec<(&'static str, u8, u16, u16, String)>)> = crate::net::rt().block_on(async move {
+                let mut sessions = vec![];
+                for ci in &order2 {
+                    let Ok(tcp) = crate::net::connect_from("127.0.0.1", addr).await else { return vec![] };
+                    let connector = tokio_rustls::TlsConnector::from(crate::net::peer_client_config(crate::net::PeerVersions::Both, certs[*ci].0));
+                    let name = tokio_rustls::rustls::pki_types::ServerName::try_from("test.com").unwrap();
+                    match tokio::time::timeout(Duration::from_secs(3), connector.connect(name, tcp)).await {
+                        Ok(Ok(tls)) => sessions.push(tls),
+                        _ => return vec![],
+                    }
+                }
+                let mut out = vec![];
+                let mut tx = 0u16;
+                for (ri, r) in reqs.iter().enumerate() {
+                    // the sessions take turns, starting with a different one for every request
+                    for k in 0..sessions.len() {
+                        let si = (k + ri) % sessions.len();
+                        tx += 1;
+                        let before = log2.lock().unwrap().records.len();
+                        crate::net::write_all(&mut sessions[si], &mbap_frame(tx, unit, &r.0)).await;
+                        let reply = match crate::net::read_n(&mut sessions[si], 7, Duration::from_secs(3)).await {
+                            crate::net::ReadOutcome::Bytes(h) => {
+                                let len = u16::from_be_bytes([h[4], h[5]]) as usize;
+                                match crate::net::read_n(&mut sessions[si], len.saturating_sub(1), Duration::from_secs(3)).await {
+                                    crate::net::ReadOutcome::Bytes(b) if h[..2] == tx.to_be_bytes() => Some(b),
+                                    _ => None,
+                                }
+                            }
+                            _ => None,
+                        };
+                        let added = log2.lock().unwrap().records[before..].to_vec();
+                        out.push((si, ri, reply, added));
+                    }
+                }
+                out
+            });
+            drop(server);
+            st.evaluations += 1;
+            st.traces += 1;
+            st.class("authorization-callback:arguments-and-answer");
+            if steps.is_empty() {
+                st.violation(Violation { signature: "MACHINERY:authz-sessions".into(), summary: format!("the sessions {order:?} could not be established with the C-ABI TLS server"), replay: json!({}) });
+                continue;
+            }
+            for (si, ri, reply, added) in steps {
+                st.transitions += 1;
+                let (cert, role) = certs[order[si]];
+                let (pdu, cb, a, b, write) = &requests[ri];
+                let want_rec = (*cb, unit, *a, *b, role.to_string());
+                let denied = *write && role != "operator";
+                st.observe(&(cb, role, denied, reply.as_ref().map(|r| r.first().copied())));
+                if added != vec![want_rec.clone()] {
+                    st.violation(Violation {
+                        signature: format!("authorization-callback-arguments:{cb}"),
+                        summary: format!("sessions {:?} (unit {unit}): request {} of the session with certificate {cert}: the C callback saw {added:?}, the Rust AuthorizationHandler would see {want_rec:?}", order.iter().map(|c| certs[*c].0).collect::<Vec<_>>(), hex(pdu)),
+                        replay: json!({"kind": "c18-authz"}),
+                    });
+                }
+                let ok = match &reply {
+                    None => false,
+                    Some(r) if denied => r[..] == [pdu[0] | 0x80, 1],
+                    Some(r) => r.first() == Some(&pdu[0]),
+                };
+                if !ok {
+                    st.violation(Violation {
+                        signature: format!("authorization-answer-not-honoured:{cb}:{}", if denied { "deny" } else { "allow" }),
+                        summary: format!("sessions {:?} (unit {unit}): request {} of the session with role {role:?}: the callback answered {}, the reply was {:?}", order.iter().map(|c| certs[*c].0).collect::<Vec<_>>(), hex(pdu), if denied { "Deny" } else { "Allow" }, reply.map(|r| hex(&r))),
+                        replay: json!({"kind": "c18-authz"}),
+                    });
+                }
+            }
+        }
+    }
+    st
+}
+
+/// TLS server with authorization handler through the C ABI, one unit id
+fn ffi_server_with_unit(rt: &FfiRuntime, filt: *mut rodbus_ffi::AddressFilter, unit: u8, points: Vec<DbOp>) -> Result<(FfiServer, SocketAddr, Arc<Mutex<AuthLog>>), String> {
+    let (wh, _d) = write_handler(Arc::new(Mutex::new(WriteState::default())), [true; 4]);
+    let (map, _r) = device_map(unit, wh, points);
+    let port = free_port("127.0.0.1");
+    let ipc = cstr("127.0.0.1");
+    let mut out: *mut rodbus_ffi::Server = null_mut();
+    let log = Arc::new(Mutex::new(AuthLog::default()));
+    let trust = cstr(cert_path("ca_a").to_str().unwrap());
+    let local = cstr(cert_path("srv_valid").to_str().unwrap());
+    let key = cstr(key_path("srv_valid").to_str().unwrap());
+    let empty = cstr("");
+    let tls = ffi::TlsServerConfig { peer_cert_path: trust.as_ptr(), local_cert_path: local.as_ptr(), private_key_path: key.as_ptr(), password: empty.as_ptr(), min_tls_version: 0, certificate_mode: 0 };
+    let rc = unsafe { ffi::rodbus_server_create_tls_with_authz(rt.0, ipc.as_ptr(), port, filt, 4, map, tls, auth_handler(log.clone()), decode_nothing(), &mut out) };
+    unsafe {
+        ffi::rodbus_address_filter_destroy(filt);
+        ffi::rodbus_device_map_destroy(map);
+    }
+    if rc != OK {
+        return Err(format!("server_create -> {rc}"));
+    }
+    Ok((FfiServer(out), format!("127.0.0.1:{port}").parse().unwrap(), log))
+}
+
 fn line_settings(pty: &crate::checks::serial_pty::Pty) -> Option<(u32, u32, u32)> {
     let path = cstr(&pty.slave_path);
     let rdev = unsafe {
@@ -2802,7 +2969,7 @@ fn c18_serial(rt: &FfiRuntime) -> Stats {
                         st.violation(Violation {
                             signature: format!("serial-settings-not-forwarded:data_bits={data_bits}:flow={flow}:parity={parity}:stop={stop}"),
                             summary: format!("SerialPortSettings {{baud {baud}, data_bits {data_bits}, flow_control {flow}, parity {parity}, stop_bits {stop}}}: the port opened through the C ABI has (cflag, iflag, speed) = {ffi_line:?} (create rc {rc}), through the Rust API with the same-named values {rust_line:?}"),
-                            replay: json!({"kind": "c18-enums"}),
+                            replay: json!({"kind": "c18-serial"}),
                         });
                     }
                 }
@@ -2870,7 +3037,7 @@ fn c18_serial(rt: &FfiRuntime) -> Stats {
         st.observe(&dedup(&f));
         let want: Vec<String> = ["Disabled", "Wait", "Open", "Disabled", "Shutdown"].iter().map(|s| s.to_string()).collect();
         if dedup(&f) != dedup(&r) || dedup(&r) != want {
-            st.violation(Violation { signature: "port-state-names".into(), summary: format!("C ABI port listener saw {f:?}, Rust listener {r:?} (expected the path Disabled, Wait, Open, Disabled, Shutdown)"), replay: json!({"kind": "c18-enums"}) });
+            st.violation(Violation { signature: "port-state-names".into(), summary: format!("C ABI port listener saw {f:?}, Rust listener {r:?} (expected the path Disabled, Wait, Open, Disabled, Shutdown)"), replay: json!({"kind": "c18-serial"}) });
         }
     }
     st
@@ -2890,7 +3057,7 @@ pub fn check_c18(tier: &str) -> i32 {
         "differential: every scenario runs once through the extern \"C\" functions of rodbus-ffi and once through the Rust API against identical scripted loopback peers. Client: 8 operations x outcomes {success with data, each exception code (all 256 for two operations, thorough: for all), bad reply, bad frame, timeout, connection closed} x unit ids {0,1,7,255} x timeouts {1 ms, 60 ms, 1 s against a silent peer; 10 s and 2^32-1 ms otherwise}; request bytes must be identical, the C callback must report the same values or the same-named error (hand-written name table), on_complete+on_failure exactly once, on_destroy exactly once; calls that themselves report an error (no connection, queue full, invalid range, null channel); one bit / register list handle used for three calls. Server: 4 write callbacks x WriteResult {success, 9 named exceptions, raw codes, callback not set}: reply bytes equal the Rust server's with the same-named result and the callback sees exactly the sent values. Enums: all 36 decode levels (compared through the log lines both APIs emit), client states on scripted connection histories, retry strategy through behaviour, TLS minimum version / certificate mode / expected name / wildcard switch of C-ABI clients and servers through admission by independent rustls peers, all 72 combinations of DataBits x FlowControl x Parity x StopBits (and three baud rates) through the line settings of a pty, port states on a scripted history. distinct = distinct (operation, peer behaviour, outcome) triples",
     );
     let thorough = rep.thorough();
-    let (a, b, c, d, e, f) = on_plain_thread(|| {
+    let (a, b, c, d, e, f, g) = on_plain_thread(|| {
         let rt = FfiRuntime::new(4);
         let a = c18_client_part(&rt, thorough);
         let b = c18_server_part(&rt, thorough);
@@ -2907,7 +3074,8 @@ pub fn check_c18(tier: &str) -> i32 {
         let d = c18_enums(&rt);
         let e = c18_tls(&rt);
         let f = c18_serial(&rt);
-        (a, b, c, d, e, f)
+        let g = c18_authz(&rt);
+        (a, b, c, d, e, f, g)
     });
     rep.phase("client operations x outcomes", a, json!({}));
     rep.phase("server write callbacks x results", b, json!({}));
@@ -2915,7 +3083,8 @@ pub fn check_c18(tier: &str) -> i32 {
     rep.phase("enums and configuration", d, json!({}));
     rep.phase("TLS configuration through the C ABI (client and server) against independent rustls peers", e, json!({}));
     rep.phase("serial port settings and port states through the C ABI over ptys", f, json!({}));
-    for c in ["outcome:success", "outcome:exception", "outcome:timeout", "outcome:io", "outcome:bad-frame", "outcome:bad-response", "write-result-success", "write-result-named-exception", "write-result-raw-exception", "write-callback-not-set", "call:no-connection", "call:queue-full", "call:parameter-validation", "call:list-reuse", "enum:decode-level", "enum:client-state", "config:retry-strategy", "config:retry-strategy-doubling", "config:tls-client", "config:tls-server", "config:serial-settings", "enum:port-state"] {
+    rep.phase("authorization callbacks of a C-ABI TLS server: sessions of different roles open at once, every connection order", g, json!({"roles": 3, "orders": 8, "units": 2, "requests": 8}));
+    for c in ["outcome:success", "outcome:exception", "outcome:timeout", "outcome:io", "outcome:bad-frame", "outcome:bad-response", "write-result-success", "write-result-named-exception", "write-result-raw-exception", "write-callback-not-set", "call:no-connection", "call:queue-full", "call:parameter-validation", "call:list-reuse", "enum:decode-level", "enum:client-state", "config:retry-strategy", "config:retry-strategy-doubling", "config:tls-client", "config:tls-server", "config:serial-settings", "enum:port-state", "authorization-callback:arguments-and-answer"] {
         rep.require_class(c);
     }
     rep.exhaustive = thorough;
@@ -2941,6 +3110,9 @@ pub fn replay_c18(v: &serde_json::Value) -> Vec<(String, String)> {
                 v.extend(c18_invalid_parameters_in_child().violations.into_iter().map(|x| (x.signature, x.summary)));
                 v
             }
+            Some("c18-authz") => c18_authz(&rt).violations.into_iter().map(|x| (x.signature, x.summary)).collect(),
+            Some("c18-tls") => c18_tls(&rt).violations.into_iter().map(|x| (x.signature, x.summary)).collect(),
+            Some("c18-serial") => c18_serial(&rt).violations.into_iter().map(|x| (x.signature, x.summary)).collect(),
             _ => c18_enums(&rt).violations.into_iter().map(|x| (x.signature, x.summary)).collect(),
         }
     })
